@@ -946,15 +946,28 @@ where
 					break Ok(());
 				};
 
-				if let Err(e) =
-					handle_frontend_messages(msg, &manager, &mut sender, max_buffer_capacity_per_subscription).await
-				{
+				// A transport send may take long (or never finish) when the peer has stopped reading: keep an eye
+				// on the shutdown signal meanwhile, so that a connection which the read task has given up does not
+				// stay "connected" with everything pending until the send returns.
+				let sent = tokio::select! {
+					biased;
+					_ = close_tx.closed() => break Ok(()),
+					r = handle_frontend_messages(msg, &manager, &mut sender, max_buffer_capacity_per_subscription) => r,
+				};
+
+				if let Err(e) = sent {
 					tracing::debug!(target: LOG_TARGET, "ws send failed: {e}");
 					break Err(Error::Transport(e.into()));
 				}
 			}
 			_ = ping_interval.next() => {
-				if let Err(err) = sender.send_ping().await {
+				let pinged = tokio::select! {
+					biased;
+					_ = close_tx.closed() => break Ok(()),
+					r = sender.send_ping() => r,
+				};
+
+				if let Err(err) = pinged {
 					tracing::debug!(target: LOG_TARGET, "Send ws ping failed: {err}");
 					break Err(Error::Transport(err.into()));
 				}
